@@ -44,7 +44,9 @@ SPEC = {
         "enc": ("mism_enc", "pf_enc"),
         "dec": ("mism_dec", "pf_dec"),
         "addr": ("mism_addr", "pf_addr"),
-        "addrb": ("mism_addrb", None),
+        "addrb": ("mism_addrb", "pf_addrb"),
+        "btc": ("mism_btc", "pf_btc"),
+        "btcb": ("mism_btcb", "pf_btcb"),
         "addre": ("mism_addre", None),
     },
     "must_be_true": ("alphabet_ok", "encx_len_ok", "decx_len_ok"),
@@ -56,6 +58,7 @@ SPEC = {
         "text is modelled as bytes: a Go string decodes only if all its runes are ASCII, where runes = bytes (bytes >= 0x80 and multi-byte runes are in the exhaustive and random malformed streams)",
         "harness printer of inputs/outputs as Coq terms; error identity = sentinel variable",
     ],
+    "notes_history": "every input is presented twice in a row and once more at the end of the run; an answer that differs from the first is a further case compared with the (pure) model",
     "assumptions": ["bytes are 0..255 (Go type system)"],
 }
 
